@@ -457,7 +457,7 @@ func sutRunShard(bin, workerCmd string, shard []*Prog, extraEnv []string) (done 
 		stdin.Close()
 	}()
 	// generous wall-clock watchdog: its firing is a crash of unknown cause => inconclusive for that program
-	perProg := 20 * time.Second
+	perProg := 70 * time.Second
 	timer := time.AfterFunc(time.Duration(len(shard))*perProg+2*time.Minute, func() { cmd.Process.Signal(os.Interrupt); time.Sleep(time.Second); cmd.Process.Kill() })
 	defer timer.Stop()
 	sc := bufio.NewScanner(stdout)
@@ -646,7 +646,7 @@ func e1Run(r *fw.Run, progs []*Prog, o e1Opts) {
 			// wall-clock watchdog: never a verdict
 			r.Count("watchdog_inconclusive", 1)
 			if r.Counter("watchdog_inconclusive") > int64(len(valid)/50+2) {
-				r.Inconclusive("too many programs hit the 15 s wall-clock watchdog (machine overloaded?): " + p.ID)
+				r.Inconclusive("too many programs hit the 60 s wall-clock watchdog (machine overloaded?): " + p.ID)
 			}
 			continue
 		}
@@ -806,4 +806,32 @@ func substIdent(expr string, repl map[string]string) string {
 		}
 	}
 	return b.String()
+}
+
+var fragImporter = importer.Default()
+var fragImporterMu sync.Mutex
+
+// fragValidImports is fragValid for fragments that use imported packages.
+func fragValidImports(frag string, imports []string) bool {
+	var b strings.Builder
+	b.WriteString("package p\n")
+	for _, im := range imports {
+		fmt.Fprintf(&b, "import %q\n", im)
+	}
+	b.WriteString(e1Prelude + strings.ReplaceAll(frag, "§", ""))
+	fset := token.NewFileSet()
+	f, err := parser.ParseFile(fset, "f.go", b.String(), 0)
+	if err != nil {
+		return false
+	}
+	ok := true
+	fragImporterMu.Lock()
+	defer fragImporterMu.Unlock()
+	conf := types.Config{GoVersion: "go1.18", Importer: fragImporter, Error: func(err error) {
+		if !strings.Contains(err.Error(), "imported and not used") {
+			ok = false
+		}
+	}}
+	conf.Check("p", fset, []*ast.File{f}, nil)
+	return ok
 }
